@@ -36,8 +36,8 @@ DOMAIN_OPS = [
     ("shift_x", 1.0), ("shift_x", -2.5), ("shift_x", 5e6), ("shift_y", 2.0),
     ("scale_x", 2.0), ("scale_x", 0.5), ("scale_y", 2.0), ("scale_y", -1.0),
     ("normalize_x", 0.0, 1.0), ("normalize_y", 0.0, 10.0),
-    ("repeat", 2), ("repeat", 3),
-    ("truncate_by_value", "absA"), ("truncate_by_value", "absB"), ("truncate_by_value", "ratioA"), ("truncate_by_value", "mixB"),
+    ("repeat", 2), ("repeat", 3), ("repeat", 6), ("repeat", 7),
+    ("truncate_by_value", "onS"), ("truncate_by_value", "absA"), ("truncate_by_value", "absB"), ("truncate_by_value", "ratioA"), ("truncate_by_value", "mixB"),
     ("truncate_by_index", 1, None), ("truncate_by_index", 0, -1),
 ]
 
@@ -181,6 +181,16 @@ class Runner:
             return (k, (op[1], op[2]), {}) if ok else None
         if k == "repeat":
             return (k, (op[1],), {}) if L >= 2 and L * op[1] <= LEN_CAP and len(m.ref[0]) >= 2 else None
+        if k == "truncate_by_value" and op[1] == "onS":
+            # bounds exactly ON the second and the last-but-one sample of the live working series (whatever rounding it
+            # carries): "the last sample <= left" is then sample 1, "the first sample >= right" is sample L-2.  Only while
+            # the series is unreshaped (the reference is the same series, so the same indices apply to it).
+            if m.reshaped or L < 5 or m.w[0] != m.ref[0]:
+                return None
+            ox = self.wv.get()[0]
+            if len(ox) != L:
+                return None
+            return (k, (float(ox[1]), float(ox[-2])), {"x_left_as_ratio": False, "x_right_as_ratio": False})
         if k == "truncate_by_value":
             a = trunc_args(op[1], wx)
             if a is None or len(m.ref[0]) < 2:
@@ -272,6 +282,8 @@ class Runner:
             getattr(m, k)(op[1], op[2])
         elif k == "repeat":
             m.repeat(op[1])
+        elif k == "truncate_by_value" and op[1] == "onS":
+            m.truncate_by_index(1, len(m.w[0]) - 1)
         elif k == "truncate_by_value":
             m.truncate_by_value(args[0], args[1], kwargs["x_left_as_ratio"], kwargs["x_right_as_ratio"])
         elif k == "truncate_by_index":
